@@ -129,13 +129,17 @@ func checkC13(c *Ctx) {
 		c.Add("traces_validated_against_impl", 1)
 	}})
 	c.Set("writer_cases", int64(nw))
+	c13FirstWrites(c)
 	c.Set("exhaustive", true)
 }
 
 func replayMulti(b sinksBeh) (finds []Finding) {
 	add := func(key, f string, a ...interface{}) { finds = append(finds, Finding{Key: key, What: fmt.Sprintf(f, a...)}) }
 	payload := []byte("hello")
-	for _, variant := range []string{"NewMultiWriteSyncer", "CombineWriteSyncers"} {
+	for _, variant := range []string{"NewMultiWriteSyncer", "CombineWriteSyncers", "nested-first", "nested-last"} {
+		if strings.HasPrefix(variant, "nested") && len(b.Outs) < 3 {
+			continue
+		}
 		sinks := []*scriptSink{}
 		ws := []zapcore.WriteSyncer{}
 		for k, o := range b.Outs {
@@ -146,6 +150,11 @@ func replayMulti(b sinksBeh) (finds []Finding) {
 		var m zapcore.WriteSyncer
 		if variant == "NewMultiWriteSyncer" {
 			m = zapcore.NewMultiWriteSyncer(ws...)
+		} else if variant == "nested-first" {
+			// a multi-syncer among the arguments of another: every sink is still reached, once
+			m = zapcore.NewMultiWriteSyncer(append([]zapcore.WriteSyncer{zapcore.NewMultiWriteSyncer(ws[0], ws[1])}, ws[2:]...)...)
+		} else if variant == "nested-last" {
+			m = zapcore.NewMultiWriteSyncer(ws[0], zapcore.NewMultiWriteSyncer(ws[1:]...))
 		} else {
 			m = zap.CombineWriteSyncers(ws...)
 		}
@@ -225,18 +234,37 @@ func replayLock(b sinksBeh) (finds []Finding) {
 			return zap.CombineWriteSyncers(s, zapcore.AddSync(io.Discard))
 		},
 	}
+	// a sink locked twice is still one sink: whichever of the two handles a caller holds, calls exclude each other
+	wrappers["Lock(Lock), both handles in use"] = nil
+	wrappers["CombineWriteSyncers(Lock), both handles in use"] = nil
 	for name, wrap := range wrappers {
 		gs := &gateSink{arrived: make(chan string, 8), release: make(chan struct{})}
-		ws := wrap(gs)
+		var ws, ws2 zapcore.WriteSyncer
+		switch name {
+		case "Lock(Lock), both handles in use":
+			ws = zapcore.Lock(gs)
+			ws2 = zapcore.Lock(ws)
+		case "CombineWriteSyncers(Lock), both handles in use":
+			ws = zapcore.Lock(gs)
+			ws2 = zap.CombineWriteSyncers(ws)
+		default:
+			ws = wrap(gs)
+			ws2 = ws
+		}
 		var wg sync.WaitGroup
+		ncall := 0
 		call := func(p string) {
 			wg.Add(1)
+			h := ws
+			if ncall++; ncall%2 == 0 {
+				h = ws2
+			}
 			go func() {
 				defer wg.Done()
 				if b.Lop[p] == "W" {
-					ws.Write([]byte("x"))
+					h.Write([]byte("x"))
 				} else {
-					ws.Sync()
+					h.Sync()
 				}
 			}()
 		}
@@ -497,3 +525,60 @@ func replayWriter(kind, prior, class string, seed int64) (f *Finding) {
 	}
 	return nil
 }
+
+// c13FirstWrites: several goroutines make the very first writes of a fresh BufferedWriteSyncer at the same moment.
+// Every write that was acknowledged with (len(p), nil) is in the sink once the syncer has been stopped.
+func c13FirstWrites(c *Ctx) {
+	rounds := c.Pick(400, 4000)
+	for r := 0; r < rounds && !c.Saturated(); r++ {
+		var mu sync.Mutex
+		var got bytes.Buffer
+		sink := zapcore.AddSync(writerFunc(func(p []byte) (int, error) { mu.Lock(); defer mu.Unlock(); return got.Write(p) }))
+		b := &zapcore.BufferedWriteSyncer{WS: sink, Size: 4096, FlushInterval: time.Hour}
+		const G = 6
+		start := make(chan struct{})
+		var wg sync.WaitGroup
+		acked := make([]bool, G)
+		var spin int32
+		for g := 0; g < G; g++ {
+			wg.Add(1)
+			go func(g int) {
+				defer wg.Done()
+				<-start
+				atomic.AddInt32(&spin, 1)
+				for atomic.LoadInt32(&spin) < G {
+				}
+				p := []byte(fmt.Sprintf("<record-%d-of-round-%d>\n", g, r))
+				n, err := b.Write(p)
+				acked[g] = n == len(p) && err == nil
+				if n < len(p) && err == nil {
+					c.Violation("C13/writer-count:bws", fmt.Sprintf("concurrent first writes: Write returned (%d, nil) for %d bytes", n, len(p)), nil)
+				}
+			}(g)
+		}
+		close(start)
+		wg.Wait()
+		stopped := make(chan struct{})
+		go func() { defer close(stopped); defer func() { recover() }(); b.Stop() }()
+		select {
+		case <-stopped:
+		case <-time.After(5 * time.Second):
+			c.Violation("C13/bws-first-writes", "Stop of a BufferedWriteSyncer first written to by several goroutines at once did not return", map[string]interface{}{"mode": "first-writes"})
+			return
+		}
+		mu.Lock()
+		data := got.String()
+		mu.Unlock()
+		for g := 0; g < G; g++ {
+			if acked[g] && strings.Count(data, fmt.Sprintf("<record-%d-of-round-%d>\n", g, r)) != 1 {
+				c.Violation("C13/writer-count:bws", fmt.Sprintf("%d goroutines make the first writes of a fresh BufferedWriteSyncer at the same moment; every Write reported (len(p), nil), yet after Stop the sink holds record %d %d times (sink: %q)", G, g, strings.Count(data, fmt.Sprintf("<record-%d-of-round-%d>\n", g, r)), data), map[string]interface{}{"mode": "first-writes", "round": r})
+				return
+			}
+		}
+		c.Add("traces_validated_against_impl", 1)
+	}
+}
+
+type writerFunc func([]byte) (int, error)
+
+func (f writerFunc) Write(p []byte) (int, error) { return f(p) }
